@@ -4,14 +4,15 @@ INIT GInit
 NEXT GNext
 CONSTANTS
   Fwd = {"p1", "p2"}
-  Ids = {"m1", "m2"}
+  Ids = {"m1", "m2", "n1"}
+  T2Ids = {"n1"}
   LocalIds = {"m1"}
   Workers = {"w1", "w2"}
   Calls = {"c1"}
   Subs = {"s1", "s2"}
-  NVmax = 4
+  NVmax = 5
   QCap = 2
-  MaxBatch = 3
+  MaxBatch = 2
   MaxCopies = 3
   Verdicts = {"A", "R", "I", "U"}
   CfgSpace <- GenCfgs
